@@ -564,14 +564,9 @@ func splitRace(s string) []string {
 	return out
 }
 
-var frameRe = regexp.MustCompile(`(?m)^  (\S+)\(\S*\)?\n\s+(\S+?):(\d+)`)
-
 // raceSig reduces a race block to (signature, files): the top-most goatcore frame of each
 // of the two accesses, line numbers stripped.
 func raceSig(block string) (sig string, files []string, harnessOnly bool) {
-	// split in sections: the two access stacks come first
-	secs := regexp.MustCompile(`(?m)^(Read at|Write at|Previous read at|Previous write at|Previous atomic|Atomic|Goroutine \d+|\S.* by )`).Split(block, -1)
-	_ = secs
 	lines := strings.Split(block, "\n")
 	var stacks [][]string // each: list of "func file"
 	var cur []string
@@ -597,7 +592,7 @@ func raceSig(block string) (sig string, files []string, harnessOnly bool) {
 		}
 		if inAccess && strings.HasPrefix(ln, "  ") && !strings.HasPrefix(ln, "   ") && t != "" && i+1 < len(lines) {
 			fn := t
-			if k := strings.Index(fn, "("); k > 0 {
+			if k := strings.LastIndex(fn, "("); k > 0 {
 				fn = fn[:k]
 			}
 			file := strings.TrimSpace(lines[i+1])
@@ -897,6 +892,9 @@ func writeEvidenceFile(p Prop, tot *Totals, tier string, seed int64, wall time.D
 		}
 		sort.Strings(sigs)
 		cov["race_signatures"] = sigs
+		if len(sigs) > 0 {
+			cov["race_first_block"] = tot.RaceDedup[sigs[0]]
+		}
 	}
 	if tot.Samples == nil {
 		cov["samples"] = []any{}
